@@ -66,3 +66,38 @@ Definition expected_forward (cs : cluster) (q : request) : fwd_spec :=
                end
            end
   end.
+
+(* ---------------------------------------------------------------- header modifiers *)
+
+Definition req_header_filter (ru : rule) : option (list (string * string) * list (string * string) * list string) :=
+  match find (fun f => match f with FReqHeaders _ _ _ => true | _ => false end) (r_filters ru) with
+  | Some (FReqHeaders s a r) => Some (s, a, r)
+  | _ => None
+  end.
+Definition resp_header_filter (ru : rule) : option (list (string * string) * list (string * string) * list string) :=
+  match find (fun f => match f with FRespHeaders _ _ _ => true | _ => false end) (r_filters ru) with
+  | Some (FRespHeaders s a r) => Some (s, a, r)
+  | _ => None
+  end.
+
+Definition req_value (q : request) (n : string) : string :=
+  match find (fun hv => seqb (lower (fst hv)) (lower n)) (q_headers q) with Some hv => snd hv | None => ""%string end.
+
+(* RequestHeaderModifier: what the backend receives for a header the filter names: set overwrites, add appends to what the
+   request carries, remove deletes *)
+Definition expected_req_headers (q : request) (ru : rule) : list (string * option string) :=
+  match req_header_filter ru with
+  | None => []
+  | Some (s, a, r) =>
+      map (fun nv => (fst nv, Some (snd nv))) s ++
+      map (fun nv => (fst nv, Some (let old := req_value q (fst nv) in
+                                    if seqb old "" then snd nv else (old ++ "," ++ snd nv)%string))) a ++
+      map (fun n => (n, None)) r
+  end.
+
+(* ResponseHeaderModifier: the headers added to the response and the backend's headers that must not pass *)
+Definition expected_resp_headers (ru : rule) : list (string * string) * list string :=
+  match resp_header_filter ru with
+  | None => ([], [])
+  | Some (s, a, r) => (a ++ s, map fst s ++ r)
+  end.
